@@ -162,6 +162,15 @@ def exc(run, p, fc):
                     ok = True
                 if isinstance(s, ast.AugAssign) and norm(s.target) == 'failures' and isinstance(s.op, ast.Add):
                     ok = True
+                if isinstance(s, ast.Return) and isinstance(s.value, ast.Call):
+                    # return self.helper(...): a helper of the class all of whose returns report one failure
+                    for c_, ts, _k in p.calls(f):
+                        if c_ is s.value:
+                            for g, _ctx in ts:
+                                rets = [r for r in ast.walk(g.node) if isinstance(r, ast.Return)]
+                                if g.cls is f.cls and rets and all(isinstance(r.value, ast.Tuple) and r.value.elts and isinstance(r.value.elts[0], ast.Constant)
+                                                                   and r.value.elts[0].value == 1 for r in rets):
+                                    ok = True
             run.ob('C04-EXC', '%s::%s::except %s' % (f.rel, f.short, norm(h.type) if h.type else '*'), ok,
                    'handler `except %s` in %s %s' % (norm(h.type) if h.type else '', f.short, 'reports a failure' if ok else 'continues as if the comparison had passed'),
                    fn=f, node=h)
